@@ -60,7 +60,7 @@ var adminTypes = []adminType{
 		return &ct.MsgUpdateTokenController{From: f, NewTokenController: Acct((v + 5) % NAccounts)}
 	}},
 	{"UpdateMaxMessageBodySize", "owner", func(s *State, f string, v int) sdk.Msg {
-		return &ct.MsgUpdateMaxMessageBodySize{From: f, MessageSize: uint64(4000 + v)}
+		return &ct.MsgUpdateMaxMessageBodySize{From: f, MessageSize: []uint64{0, 1, 131, 132, 133, 8000, 1 << 40, uint64(4000 + v)}[v%8]}
 	}},
 	{"AddRemoteTokenMessenger", "owner", func(s *State, f string, v int) sdk.Msg {
 		for _, d := range []uint32{77, 78, 79, 80, 81, 82, 83} {
@@ -241,6 +241,38 @@ func runC10(rc *RunCtx) {
 					}
 					rc.Cov.Cell("C10_previous_holder", fmt.Sprintf("%s/%s/%s/%v", role, at.Name, who, r.OK))
 				}
+			}
+		}
+		// a role update that is rolled back (a later message of the same transaction fails) must change nothing:
+		// the would-be holder is still refused, the real holder still served
+		for ui := 0; ui < 4; ui++ {
+			e, err := StdEngine(rc, false, false, nil)
+			if err != nil {
+				continue
+			}
+			nw := Acct(OtherIx)
+			role := []string{"owner", "am", "pauser", "tc"}[ui]
+			var upd []sdk.Msg
+			switch ui {
+			case 0:
+				upd = []sdk.Msg{&ct.MsgUpdateOwner{From: e.M.Owner, NewOwner: nw}, &ct.MsgAcceptOwner{From: nw}}
+			case 1:
+				upd = []sdk.Msg{&ct.MsgUpdateAttesterManager{From: e.M.Owner, NewAttesterManager: nw}}
+			case 2:
+				upd = []sdk.Msg{&ct.MsgUpdatePauser{From: e.M.Owner, NewPauser: nw}}
+			case 3:
+				upd = []sdk.Msg{&ct.MsgUpdateTokenController{From: e.M.Owner, NewTokenController: nw}}
+			}
+			upd = append(upd, &ct.MsgRemoveRemoteTokenMessenger{From: "not-the-owner", DomainId: 0})
+			e.Exec(Tx{Msgs: upd, Note: "C10 rolled-back role update"})
+			for ti, at := range adminTypes {
+				if at.Role != role {
+					continue
+				}
+				old := map[string]string{"owner": e.M.Owner, "am": e.M.AM, "pauser": e.M.Pauser, "tc": e.M.TC}[role]
+				r1 := e.Exec(Tx{Msgs: msgs1(at.Make(e.M, nw, ti)), Note: "C10 would-be holder after a rolled-back update"})
+				r2 := e.Exec(Tx{Msgs: msgs1(at.Make(e.M, old, ti)), Note: "C10 real holder after a rolled-back update"})
+				rc.Cov.Cell("C10_rolled_back_update", fmt.Sprintf("%s/%s/would-be=%v/real=%v", role, at.Name, r1.OK, r2.OK))
 			}
 		}
 		// signer annotation: the registry's signers of every message type are exactly [From]
@@ -440,7 +472,7 @@ func runC11(rc *RunCtx) {
 
 // ---------------------------------------------------------------- C12 matrix
 
-var c12Flows = []string{"send", "send-with-caller", "deposit", "deposit-with-caller", "replace", "replace-deposit", "receive-other", "receive-mint"}
+var c12Flows = []string{"send", "send-with-caller", "deposit", "deposit-with-caller", "replace", "replace-deposit", "receive-other", "receive-mint", "receive-other-long", "send-long"}
 
 func runC12(rc *RunCtx) {
 	nonce := uint64(50000)
@@ -496,6 +528,13 @@ func runC12(rc *RunCtx) {
 				in := &InMsg{Version: 0, Src: 1, Dst: 4, Nonce: nonce, Sender: Structured32(1), Recipient: Structured32(2), Caller: make([]byte, 32), Body: []byte("hi")}
 				raw := in.Bytes()
 				m = &ct.MsgReceiveMessage{From: Acct(UserIx), Message: raw, Attestation: e.Attest(raw, 0)}
+			case "receive-other-long":
+				nonce++
+				in := &InMsg{Version: 0, Src: 1, Dst: 4, Nonce: nonce, Sender: Structured32(1), Recipient: Structured32(2), Caller: make([]byte, 32), Body: structured(7000, 3)}
+				raw := in.Bytes()
+				m = &ct.MsgReceiveMessage{From: Acct(UserIx), Message: raw, Attestation: e.Attest(raw, 2)}
+			case "send-long":
+				m = &ct.MsgSendMessage{From: Acct(UserIx), DestinationDomain: 1, Recipient: Structured32(8), MessageBody: structured(7999, 1)}
 			case "receive-mint":
 				nonce++
 				raw := StdInbound(nonce, 1, big.NewInt(7)).Bytes()
@@ -511,7 +550,7 @@ func runC12(rc *RunCtx) {
 			rc.Cov.Assert("C12.pause-matrix")
 			rc.Cov.Cell("C12_matrix", fmt.Sprintf("sr=%v,bm=%v/%s/%s/%v", sr, bm, name, phase, map[bool]string{true: "ok", false: "fail"}[r.OK]))
 			rc.Cov.Distinct(fmt.Sprintf("c12|%v|%v|%s|%s|%v", sr, bm, name, phase, r.OK))
-			if r.OK == blocked && r.TxExp != DontCare {
+			if r.OK == blocked && r.TxExp != DontCare && !(r.TxExp == MustFail && !blocked) {
 				dir := "blocked-by-a-flag-not-naming-it"
 				if r.OK {
 					dir = "ran-while-paused"
@@ -545,6 +584,7 @@ func runC12(rc *RunCtx) {
 				r := e.Exec(Tx{Msgs: msgs1(at.Make(e.M, role, ti+fs)), Note: "C12 admin while paused"})
 				rc.Cov.Cell("C12_admin", fmt.Sprintf("sr=%v,bm=%v/%s/%v", sr, bm, at.Name, r.OK))
 			}
+			e.Exec(Tx{Msgs: msgs1(&ct.MsgUpdateMaxMessageBodySize{From: e.M.Owner, MessageSize: 8000}), Note: "C12 restore body size"})
 			// ownership hand-over and pauser update while paused
 			own := e.M.Owner
 			r1 := e.Exec(Tx{Msgs: msgs1(&ct.MsgUpdateOwner{From: own, NewOwner: Acct(OtherIx)})})
@@ -622,7 +662,13 @@ func runC13(rc *RunCtx) {
 				keys = append(keys, i)
 			}
 		}
-		for t := 1; t <= len(keys); t++ {
+		for tt := 1; tt <= 2*len(keys)+1; tt++ {
+			// tt <= len(keys): one spelling per key; above: the first key additionally enabled under a second spelling
+			dup := tt > len(keys)
+			t := tt
+			if dup {
+				t = tt - len(keys)
+			}
 			si++
 			if si%rc.NShards != rc.Shard {
 				continue
@@ -633,6 +679,9 @@ func runC13(rc *RunCtx) {
 					gs.AttesterList = nil
 					for _, k := range keys {
 						gs.AttesterList = append(gs.AttesterList, ct.Attester{Attester: AttesterPool[k].Spell(k % 4)})
+					}
+					if dup {
+						gs.AttesterList = append(gs.AttesterList, ct.Attester{Attester: AttesterPool[keys[0]].Spell((keys[0] + 1) % 4)})
 					}
 					gs.SignatureThreshold = &ct.SignatureThreshold{Amount: uint32(t)}
 				})
@@ -652,11 +701,11 @@ func runC13(rc *RunCtx) {
 					}
 					startHash = e.M.Hash()
 				}
-				r := e.Exec(Tx{Msgs: msgs1(m), Note: fmt.Sprintf("C13 closure from subset=%b t=%d", subset, t)})
+				r := e.Exec(Tx{Msgs: msgs1(m), Note: fmt.Sprintf("C13 closure from subset=%b t=%d second-spelling=%v", subset, t, dup)})
 				transitions++
 				rc.Cov.Assert("C13.action-oracle")
 				rc.Cov.Cell("C13_transitions", kind+"/"+map[bool]string{true: "ok", false: "fail"}[r.OK])
-				rc.Cov.Distinct(fmt.Sprintf("c13|%b|%d|%s|%v", subset, t, shapeMsg(m), r.OK))
+				rc.Cov.Distinct(fmt.Sprintf("c13|%b|%d|%v|%s|%v", subset, t, dup, shapeMsg(m), r.OK))
 			}
 			am := Acct(AMIx)
 			for k := 0; k < K; k++ {
@@ -666,7 +715,7 @@ func runC13(rc *RunCtx) {
 				}
 			}
 			step(&ct.MsgDisableAttester{From: am, Attester: AttesterPool[9].Spell(0)}, "disable-unknown")
-			for nt := 0; nt <= len(keys)+1; nt++ {
+			for nt := 0; nt <= len(keys)+2; nt++ {
 				step(&ct.MsgUpdateSignatureThreshold{From: am, Amount: uint32(nt)}, "set-threshold")
 			}
 			step(&ct.MsgUpdateSignatureThreshold{From: am, Amount: 0xffffffff}, "set-threshold")
@@ -756,7 +805,7 @@ func init() {
 		Shards: func(t string) int { return map[string]int{"quick": 2, "thorough": 8}[t] },
 		Run:    runC13,
 		Floors: func(c *Cov, tier string) []string {
-			want := map[string]float64{"quick": 32, "thorough": 80}[tier]
+			want := map[string]float64{"quick": 79, "thorough": 191}[tier]
 			if s, _ := c.Extra["states"].(float64); s < want {
 				return []string{fmt.Sprintf("states visited %v of %v", s, want)}
 			}
